@@ -111,8 +111,128 @@ func init() {
 		return e.hasPrefixTerm(bytesView(args[0].(Bytes)), bytesView(args[1].(Bytes)))
 	}
 	stubs["strings.TrimSpace"] = func(e *Exec, fn *ssa.Function, args []Value) Value {
-		return e.opaqueString("trimspace")
+		st := args[0].(Str)
+		sv := strView(st)
+		if cs, isC := sv.concrete(); isC {
+			return constStr(strings.TrimSpace(cs))
+		}
+		if t, isAtom := sv.wholeAtom(); isAtom && (containsTerm(e.bech32Atoms, t) || containsTerm(e.digitAtoms, t)) {
+			e.Notes["stub contract: bech32 strings use [a-z0-9] and decimal strings use [0-9] (no white space to trim)"] = true
+			return st
+		}
+		M, ok := e.feasibleMax(sv.Len)
+		if !ok || M > 2048 {
+			return e.opaqueString("trimspace")
+		}
+		if M > 160 {
+			// long strings: the bounds of the trimmed part are Skolem constants with a definition
+			// that is linear in M (no nested if-then-else): everything before lo and from hi on is
+			// ASCII white space, the bytes at lo and hi-1 are not
+			e.Notes["strings.TrimSpace on bounded strings: exact for ASCII white space (\\t \\n \\v \\f \\r space); non-ASCII Unicode spaces are treated as ordinary bytes"] = true
+			isSp := func(b *smt.Term) *smt.Term {
+				var cs []*smt.Term
+				for _, c := range []byte{9, 10, 11, 12, 13, 32} {
+					cs = append(cs, smt.Eq(b, smt.Const(uint64(c), 8)))
+				}
+				return smt.Or(cs...)
+			}
+			lo, hi := e.fresh("trimlo", smt.BV64), e.fresh("trimhi", smt.BV64)
+			cs := []*smt.Term{smt.ULe(lo, hi), smt.ULe(hi, sv.Len)}
+			for j := 0; j < M; j++ {
+				sp := isSp(sv.at(c64(j)))
+				cs = append(cs, smt.Or(smt.UGe(c64(j), lo), sp))
+				cs = append(cs, smt.Or(smt.ULt(c64(j), hi), smt.UGe(c64(j), sv.Len), sp))
+			}
+			cs = append(cs, smt.Or(smt.Eq(lo, hi), smt.And(smt.Not(isSp(sv.at(lo))), smt.Not(isSp(sv.at(smt.Sub(hi, c1)))))))
+			e.assume(smt.And(cs...))
+			return Str{Fn: st.Fn, Off: smt.Add(st.Off, lo), Len: smt.Sub(hi, lo)}
+		}
+		// the sub-string between the first and the last byte that is not ASCII white space
+		// (Unicode white space outside ASCII is not modelled; a model that depends on it does not replay)
+		e.Notes["strings.TrimSpace on bounded strings: exact for ASCII white space (\\t \\n \\v \\f \\r space); non-ASCII Unicode spaces are treated as ordinary bytes"] = true
+		nonSpace := func(j int) *smt.Term {
+			b := sv.at(c64(j))
+			var cs []*smt.Term
+			for _, c := range []byte{9, 10, 11, 12, 13, 32} {
+				cs = append(cs, smt.Ne(b, smt.Const(uint64(c), 8)))
+			}
+			return smt.And(append(cs, smt.ULt(c64(j), sv.Len))...)
+		}
+		lo := sv.Len
+		for j := M - 1; j >= 0; j-- {
+			lo = smt.Ite(nonSpace(j), c64(j), lo)
+		}
+		hi := lo
+		for j := 0; j < M; j++ {
+			hi = smt.Ite(nonSpace(j), c64(j+1), hi)
+		}
+		return Str{Fn: st.Fn, Off: smt.Add(st.Off, lo), Len: smt.Sub(hi, lo)}
 	}
+	anyOf := func(name string, index bool) stubFn {
+		return func(e *Exec, fn *ssa.Function, args []Value) Value {
+			sv := strView(args[0].(Str))
+			var set []byte
+			switch c := args[1].(type) {
+			case Str:
+				cs, ok := strView(c).concrete()
+				if !ok {
+					panic(engineErr("%s with a non-constant character set", name))
+				}
+				set = []byte(cs)
+			case *smt.Term:
+				if !c.IsConst() {
+					panic(engineErr("%s with a non-constant rune", name))
+				}
+				set = []byte{byte(c.Val)}
+				if c.Val >= 0x80 {
+					panic(engineErr("%s with a non-ASCII rune", name))
+				}
+			}
+			for _, c := range set {
+				if c >= 0x80 {
+					panic(engineErr("%s with non-ASCII characters", name))
+				}
+			}
+			if cs, isC := sv.concrete(); isC {
+				i := strings.IndexAny(cs, string(set))
+				if index {
+					return smt.Const(uint64(int64(i)), 64)
+				}
+				return smt.BoolConst(i >= 0)
+			}
+			M, ok := e.feasibleMax(sv.Len)
+			if !ok {
+				panic(engineErr("%s on a string of unbounded length", name))
+			}
+			hit := func(j int) *smt.Term {
+				b := sv.at(c64(j))
+				var cs []*smt.Term
+				for _, c := range set {
+					cs = append(cs, smt.Eq(b, smt.Const(uint64(c), 8)))
+				}
+				return smt.And(smt.ULt(c64(j), sv.Len), smt.Or(cs...))
+			}
+			if index {
+				res := smt.Const(^uint64(0), 64)
+				for j := M - 1; j >= 0; j-- {
+					res = smt.Ite(hit(j), c64(j), res)
+				}
+				return res
+			}
+			var alts []*smt.Term
+			for j := 0; j < M; j++ {
+				alts = append(alts, hit(j))
+			}
+			if len(alts) == 0 || len(set) == 0 {
+				return smt.False
+			}
+			return smt.Or(alts...)
+		}
+	}
+	stubs["strings.ContainsAny"] = anyOf("strings.ContainsAny", false)
+	stubs["strings.ContainsRune"] = anyOf("strings.ContainsRune", false)
+	stubs["strings.IndexAny"] = anyOf("strings.IndexAny", true)
+	stubs["strings.IndexRune"] = anyOf("strings.IndexRune", true)
 	stubs["(*strings.Builder).WriteString"] = func(e *Exec, fn *ssa.Function, args []Value) Value {
 		p := args[0].(Ptr)
 		cur := e.load(p).(Opaque)
@@ -319,7 +439,9 @@ func init() {
 	stubs["(time.Time).IsZero"] = func(e *Exec, fn *ssa.Function, args []Value) Value {
 		return smt.Eq(args[0].(Opaque).Data.(*smt.Term), c0)
 	}
-	stubs["(time.Time).UTC"] = func(e *Exec, fn *ssa.Function, args []Value) Value { return args[0] }
+	stubs["(time.Time).UTC"] = func(e *Exec, fn *ssa.Function, args []Value) Value {
+		return Opaque{Kind: "time", Data: args[0].(Opaque).Data}
+	}
 	stubs["(time.Time).Equal"] = func(e *Exec, fn *ssa.Function, args []Value) Value {
 		return smt.Eq(args[0].(Opaque).Data.(*smt.Term), args[1].(Opaque).Data.(*smt.Term))
 	}
